@@ -2591,3 +2591,14 @@ Proof.
       * apply negb_false_iff in EU. now apply obytes_eqb_eq in EU.
     + intros _ H. apply N.eqb_neq in E1. contradiction.
 Qed.
+
+Lemma known_class_prepb_spec pa ext uc cols : known_class_prepb pa ext uc cols = true -> KnownClassPrep pa ext uc cols.
+Proof.
+  unfold known_class_prepb, KnownClassPrep. intros H. apply andb_true_iff in H. destruct H as [Q E].
+  apply quadrantb_spec in Q. split; [assumption|]. apply existsb_exists in E. destruct E as [c' [HI H]].
+  apply andb_true_iff in H. destruct H as [H1 H2]. exists c'. split; [assumption|]. split.
+  - destruct c'; [discriminate|discriminate].
+  - intros EE. subst c'. clear -H2. induction cols as [|x r IH]; simpl in H2; [discriminate|].
+    assert (col_eqb x x = true) by (unfold col_eqb; rewrite N.eqb_refl; destruct (c_type x); reflexivity).
+    rewrite H in H2. simpl in H2. now apply IH.
+Qed.
